@@ -20,17 +20,23 @@ def lookupPhase (it : QItem) (w : World) : M (EvInfo × Option (List Key) × Loc
     let some l := w.byGlobal[it.idx]? | ubErr "world.rs:flush:get_global_list"
     pure (info, some l.entries, Loc.NULL)
 
-/-- the handler loop of `deliverOne`, verbatim: returns whether a handler took ownership -/
-def handlerPhase (it : QItem) (info : EvInfo) (loc : Loc) (hs : List Key) : M Bool :=
+/-- the handler loop of `deliverOne`, verbatim: returns whether a handler took ownership. The unwinding handler is
+    the first half of `EventDropper::drop`: the in-flight event is dropped unless a handler owns it. -/
+def handlerLoop (it : QItem) (info : EvInfo) (loc : Loc) (hs : List Key) : M Bool :=
   forIn hs false fun hk owned =>
     if (!owned) = true then do
       let r ← tryCatch (runHandler hk it loc) fun e => do
         match e with
-        | .panic _ => if info.needsDrop then dropEvent it
+        | .panic _ => if !(← get).inflightOwned && info.needsDrop then dropEvent it
         | _ => pure ()
         throw e
       pure (ForInStep.yield r)
     else pure (ForInStep.yield owned)
+
+/-- the handler phase: clear the ownership flag of the event in flight, run the handler loop -/
+def handlerPhase (it : QItem) (info : EvInfo) (loc : Loc) (hs : List Key) : M Bool := do
+  modify fun w => { w with inflightOwned := false }
+  handlerLoop it info loc hs
 
 /-- the built-in effect of `deliverOne`, verbatim -/
 def effectPhase (it : QItem) (info : EvInfo) (loc : Loc) : M Unit :=
@@ -56,11 +62,50 @@ theorem deliverOne_phases (it : QItem) :
       match hs with
       | none => if info.needsDrop then dropEvent it else pure ()
       | some hs => do
-        let owned ← handlerPhase it info loc hs
+        modify fun w => { w with inflightOwned := false }
+        let owned ← handlerLoop it info loc hs
         modify fun w => { w with queue := w.queue.reverse }
         if owned then pure () else effectPhase it info loc) := by
   rfl
 
+theorem handlerPhase_run (it : QItem) (info : EvInfo) (loc : Loc) (hs : List Key) (w : World) :
+    (handlerPhase it info loc hs).run.run w =
+      (handlerLoop it info loc hs).run.run { w with inflightOwned := false } := by
+  unfold handlerPhase
+  rw [run_bind, run_modify]
+
+/-- `deliverOne`, phase by phase, in `run.run` form: lookup; if the target is dead, drop the event; otherwise handler
+    phase, reversal of the pushed segment, and — unless a handler took the event — the built-in effect. -/
+theorem deliverOne_run (it : QItem) (w : World) :
+    (deliverOne it).run.run w =
+      match (lookupPhase it w).run.run w with
+      | (.error e, w1) => (.error e, w1)
+      | (.ok (info, none, _), w1) => (if info.needsDrop then dropEvent it else pure () : M Unit).run.run w1
+      | (.ok (info, some hs, loc), w1) =>
+        match (handlerPhase it info loc hs).run.run w1 with
+        | (.error e, wh) => (.error e, wh)
+        | (.ok owned, wh) =>
+          if owned then (.ok (), { wh with queue := wh.queue.reverse })
+          else (effectPhase it info loc).run.run { wh with queue := wh.queue.reverse } := by
+  rw [deliverOne_phases, run_bind, run_get]
+  simp only
+  rw [run_bind]
+  generalize (lookupPhase it w).run.run w = r
+  obtain ⟨(e|⟨info, hs, loc⟩), w1⟩ := r
+  · rfl
+  · cases hs with
+    | none => rfl
+    | some hs =>
+      simp only
+      rw [run_bind, run_modify, handlerPhase_run]
+      simp only
+      rw [run_bind]
+      generalize (handlerLoop it info loc hs).run.run { w1 with inflightOwned := false } = r
+      obtain ⟨(e|owned), wh⟩ := r
+      · rfl
+      · simp only
+        rw [run_bind, run_modify]
+        cases owned <;> rfl
 
 /-! ### what the lookup and the built-in effect leave alone -/
 
@@ -74,9 +119,10 @@ structure EffFrame where
   nextCSerial : Nat
   ords : Array Key
   arenaCount : Nat
+  inflightOwned : Bool
 
 def World.effFrame (w : World) : EffFrame :=
-  ⟨w.queue, w.edrops, w.out, w.budget, w.nextESerial, w.nextCSerial, w.ords, w.arenaCount⟩
+  ⟨w.queue, w.edrops, w.out, w.budget, w.nextESerial, w.nextCSerial, w.ords, w.arenaCount, w.inflightOwned⟩
 
 abbrev EF (ef : EffFrame) : World → Prop := fun w => w.effFrame = ef
 
@@ -175,6 +221,8 @@ theorem runAct_pfx (hk : Key) (it : QItem) (loc : Loc) (act : Act) : Keeps (PFX 
 macro_rules | `(tactic| keeps_leaf) => `(tactic| exact runAct_pfx _ _ _ _)
 theorem runHandler_pfx (hk : Key) (it : QItem) (loc : Loc) : Keeps (PFX q) (runHandler hk it loc) := by unfold runHandler; keeps
 macro_rules | `(tactic| keeps_leaf) => `(tactic| exact runHandler_pfx _ _ _)
+theorem handlerLoop_pfx (it : QItem) (info : EvInfo) (loc : Loc) (hs : List Key) : Keeps (PFX q) (handlerLoop it info loc hs) := by unfold handlerLoop; keeps
+macro_rules | `(tactic| keeps_leaf) => `(tactic| exact handlerLoop_pfx _ _ _ _)
 theorem handlerPhase_pfx (it : QItem) (info : EvInfo) (loc : Loc) (hs : List Key) : Keeps (PFX q) (handlerPhase it info loc hs) := by unfold handlerPhase; keeps
 macro_rules | `(tactic| keeps_leaf) => `(tactic| exact handlerPhase_pfx _ _ _ _)
 end pfx
